@@ -287,7 +287,7 @@ func cmdCheck(args []string) int {
 	expPath := filepath.Join(verifRoot, "props", id+".expected")
 	gen := map[string]bool{}
 	for _, o := range obls {
-		if o.Kind != "safety" && o.Kind != "cover" {
+		if o.Kind != "safety" && o.Kind != "cover" && o.Kind != "dataflow" {
 			gen[baseName(o.Name)] = true
 		}
 	}
@@ -731,9 +731,13 @@ func (run *checkRun) finish(start time.Time) int {
 		"property_id": cfg.ID, "tier": run.tier, "seed": run.seed, "level": level, "coverage": cov, "assumptions": assumptions,
 		"wall_s": round2(time.Since(start).Seconds()), "violations": len(run.violations), "known_findings": run.known,
 	}
-	os.MkdirAll(filepath.Join(verifRoot, "evidence"), 0o755)
+	evDir := filepath.Join(verifRoot, "evidence")
+	if os.Getenv("VERIF_SELFTEST") != "" {
+		evDir = filepath.Join(verifRoot, "out", "selftest-evidence")
+	}
+	os.MkdirAll(evDir, 0o755)
 	data, _ := json.MarshalIndent(ev, "", " ")
-	os.WriteFile(filepath.Join(verifRoot, "evidence", cfg.ID+".json"), data, 0o644)
+	os.WriteFile(filepath.Join(evDir, cfg.ID+".json"), data, 0o644)
 	fmt.Printf("%s: %d/%d obligations discharged, %d violation(s), %d known finding(s), %d bounded evaluation(s), %.1fs\n", cfg.ID, nDis, nObl, len(run.violations), len(run.known), run.evals, time.Since(start).Seconds())
 	if len(run.violations) > 0 {
 		return 1
